@@ -834,8 +834,35 @@ fn resolve_j<'tcx>(
                 ty::InstanceKind::DropGlue(..) => "drop_glue",
                 _ => "other",
             };
+            // `x.into()` resolves to core's blanket `impl<T, U: From<T>> Into<U> for T`, whose body is `U::from(self)`:
+            // record which `From` impl that dispatches to (when the types say), so that `x.into()` and `U::from(x)` are
+            // known to be the same call
+            let mut via = J::Null;
+            if def_s(tcx, rid) == "<T as std::convert::Into<U>>::into" && inst.args.len() == 2 {
+                if let (Some(t), Some(u)) = (inst.args[0].as_type(), inst.args[1].as_type()) {
+                    let from_fn = tcx.get_diagnostic_item(rustc_span::sym::From).and_then(|tr| {
+                        tcx.associated_items(tr)
+                            .in_definition_order()
+                            .find(|i| i.name().as_str() == "from")
+                            .map(|i| i.def_id)
+                    });
+                    if let Some(from_fn) = from_fn {
+                        let fargs = tcx.mk_args(&[u.into(), t.into()]);
+                        if let Ok(Some(fi)) = Instance::try_resolve(tcx, tenv, from_fn, fargs) {
+                            let fid = fi.def_id();
+                            via = J::Obj(vec![
+                                ("def".into(), J::s(def_s(tcx, fid))),
+                                ("local".into(), J::Bool(fid.is_local())),
+                                ("full".into(), J::s(tcx.def_path_str_with_args(fid, fi.args))),
+                                ("targs".into(), generic_args_j(tcx, fi.args)),
+                            ]);
+                        }
+                    }
+                }
+            }
             J::Obj(vec![
                 ("def".into(), J::s(def_s(tcx, rid))),
+                ("via_from".into(), via),
                 ("kind".into(), J::s(kind)),
                 ("local".into(), J::Bool(rid.is_local())),
                 ("krate".into(), J::s(tcx.crate_name(rid.krate).to_string())),
